@@ -2,11 +2,11 @@ package gosym
 
 import (
 	"fmt"
-	"sync"
 	"go/constant"
 	"go/token"
 	"go/types"
 	"strings"
+	"sync"
 
 	"verif/engine/sym"
 
@@ -350,7 +350,9 @@ func (c *Ctx) runBlock(fr *frame) {
 	for _, in := range b.Instrs {
 		if Trace != "" && fr.fn.Name() == Trace {
 			if v, ok := in.(ssa.Value); ok {
-				defer func(v ssa.Value, in ssa.Instruction) { fmt.Printf("  %s: %s = %s   => %s\n", b, v.Name(), in, describe(fr.env[fr.info.index[v]])) }(v, in)
+				defer func(v ssa.Value, in ssa.Instruction) {
+					fmt.Printf("  %s: %s = %s   => %s\n", b, v.Name(), in, describe(fr.env[fr.info.index[v]]))
+				}(v, in)
 			} else {
 				fmt.Printf("  %s: %s\n", b, in)
 			}
